@@ -406,7 +406,7 @@ pub fn project(c: &Config) -> Map<String, Value> {
     m
 }
 
-fn merge_real(yaml: &Option<String>, argv: &[String]) -> Result<Config, String> {
+pub fn merge_real(yaml: &Option<String>, argv: &[String]) -> Result<Config, String> {
     let mut config = Config::default();
     if let Some(text) = yaml {
         let file: ConfigFile = serde_yaml::from_str(text).map_err(|e| format!("file rejected: {} --- {}", e, text))?;
